@@ -66,10 +66,15 @@ def setkey_oracle(env, variant, alg, kalg, priv):
     return ok
 
 
-def config_post_table(prog, env, sig_lens=(0, 1, 43)):
-    """__verify_config_post over config.alg x key {NULL, each alg attr} x header alg x sig_len x claims outcome"""
+def config_post_table(prog, env, sig_lens=(0, 1, 43), jwt_key='same'):
+    """jwt_verify_complete (-> __verify_config_post) over config.alg x key {NULL, each alg attr} x header alg x
+    sig_len x claims outcome.  The claim evaluation and the signature check are replaced by recording stubs:
+    the table shows what the policy layer lets through to jwt_verify_sig.
+
+    jwt_key: how the caller leaves jwt->key: 'same' (== config.key, established by the caller-facts rule) or
+    'free' (independent: both NULL and the key object are tried)."""
     unit = 'libjwt/jwt-verify.c'
-    prog.func(unit, '__verify_config_post')
+    prog.func(unit, 'jwt_verify_complete')
     prog.func(unit, '__verify_claims')
 
     def h_claims(it, st, args, node):
@@ -78,6 +83,11 @@ def config_post_table(prog, env, sig_lens=(0, 1, 43)):
         s2 = st.clone()
         s2.ts['claims'] = 'failed'
         return [(s1, Int(0)), (s2, Int(8))]
+
+    def h_verify_sig(it, st, args, node):
+        jwt = args[0]
+        st.ts['to_verify'] = (vkey(it.load(st, jwt.loc, 'alg')), vkey(it.load(st, jwt.loc, 'key')), flag_of(st, jwt.loc))
+        return [(st, jwt)]
     model = build_model()
     algs = env.all_alg_vals
     cells = []
@@ -85,23 +95,43 @@ def config_post_table(prog, env, sig_lens=(0, 1, 43)):
         for kalg in [None] + algs:
             for jalg in algs:
                 for sig_len in sig_lens:
-                    it = Interp(prog, unit, model=model, hooks={'__verify_claims': h_claims})
-                    st = State()
-                    jwt = ('obj', 'jwt')
-                    st.zero.add(jwt)
-                    st.mem[(jwt, 'alg')] = Int(jalg)
-                    cfg = ('obj', 'cfg')
-                    st.zero.add(cfg)
-                    st.mem[(cfg, 'alg')] = Int(calg)
-                    if kalg is None:
-                        st.mem[(cfg, 'key')] = NULL
-                    else:
-                        st.mem[(cfg, 'key')] = Ref(mk_key(st, 'key', alg=kalg))
-                    res = it.run('__verify_config_post', [Ref(jwt), Ref(cfg), Int(sig_len)], st)
-                    for s, rv in res:
-                        cells.append(dict(calg=calg, kalg=kalg, jalg=jalg, sig_len=sig_len, claims=s.ts.get('claims'),
-                                          ret=rv.v if isinstance(rv, Int) else repr(rv), flag=flag_of(s, jwt),
-                                          msg=msg_state(it, s, jwt, 'error_msg')))
+                    for jk in ((None,) if jwt_key == 'same' else ((False, True) if kalg is not None else (False,))):
+                        def h_strlen(it, st, args, node, n=sig_len):
+                            if isinstance(args[0], (Str, Ref)):
+                                return None
+                            return [(st, Int(n))]
+                        it = Interp(prog, unit, model=model,
+                                    hooks={'__verify_claims': h_claims, 'jwt_verify_sig': h_verify_sig, 'strlen': h_strlen})
+                        st = State()
+                        jwt = ('obj', 'jwt')
+                        st.zero.add(jwt)
+                        st.mem[(jwt, 'alg')] = Int(jalg)
+                        cfg = ('obj', 'cfg')
+                        st.zero.add(cfg)
+                        st.mem[(cfg, 'alg')] = Int(calg)
+                        if kalg is None:
+                            st.mem[(cfg, 'key')] = NULL
+                            st.mem[(jwt, 'key')] = NULL
+                            kref = NULL
+                        else:
+                            kref = Ref(mk_key(st, 'key', alg=kalg))
+                            st.mem[(cfg, 'key')] = kref
+                            st.mem[(jwt, 'key')] = kref if (jk is None or jk) else NULL
+                        tok = Term(('token',), ptr=True)
+                        res = it.run('jwt_verify_complete', [Ref(jwt), Ref(cfg), tok, Term(('payload_len',))], st)
+                        for s, rv in res:
+                            tv = s.ts.get('to_verify')
+                            fl = flag_of(s, jwt)
+                            if tv is not None and fl == 0:
+                                out = 'to-verify'
+                            elif fl == 0:
+                                out = 'accept-unsigned'
+                            else:
+                                out = 'reject'
+                            cells.append(dict(calg=calg, kalg=kalg, jalg=jalg, sig_len=sig_len, claims=s.ts.get('claims'),
+                                              out=out, flag=fl, msg=msg_state(it, s, jwt, 'error_msg'), jwt_key=jk,
+                                              verify_args=tv, want_args=(('int', jalg), vkey(kref), 0),
+                                              ret=0 if out != 'reject' else 1))
     return cells
 
 
@@ -115,7 +145,7 @@ def config_post_oracle(env, c):
         pinned = calg if calg != NONE else (kalg if kalg is not None else NONE)
         ok = (kalg is not None and jalg != NONE and pinned != NONE and jalg == pinned
               and (calg == NONE or kalg == NONE or calg == kalg))
-    return ok and c['claims'] == 'ok'
+    return ok and c['claims'] in ('ok', None)
 
 
 BITS_REPR = (0, 255, 256, 257, 383, 384, 385, 455, 456, 457, 511, 512, 513, 520, 521, 522, 1024, 2047, 2048, 2049, 4096)
@@ -242,3 +272,99 @@ def size_oracle(env, alg, bits):
     if op == '==':
         return bits == v
     return bits in v
+
+
+NEAR_MISS = ['', 'None', 'NONE', 'nONE', 'none ', ' none', 'non', 'nonee', 'hs256', 'Hs256', 'HS256 ', ' HS256', 'HS25', 'HS2567',
+             'HS256\n', 'HS-256', 'RS', 'RS256x', 'rs256', 'ES256k', 'es256k', 'ES256KK', 'EDDSA', 'eddsa', 'EdDsa', 'EdDSA ',
+             'Ed25519', 'PS', 'ps512', 'PS5120', 'HS1', 'foo', 'A', 'HS256,RS256', 'none,HS256', 'RS256\tx', 'ES512 ', 'ES5121']
+
+
+def alg_name_tables(prog, env):
+    """jwt_alg_str over every enumerator (+INVAL, +1) and jwt_str_alg over the RFC 7518 names and near misses,
+    interpreted concretely (the comparison loop of jwt_strcmp is unrolled on the concrete operands)."""
+    from props.common import ALGS
+    model = build_model()
+    to_str = {}
+    for v in env.all_alg_vals + [env.INVAL, env.INVAL + 1, -1]:
+        it = Interp(prog, 'libjwt/jwt.c', model=model)
+        r = it.run('jwt_alg_str', [Int(v)])
+        outs = set()
+        for s, rv in r:
+            outs.add(rv.text() if isinstance(rv, Str) else (None if rv is NULL else repr(rv)))
+        to_str[v] = outs
+    to_alg = {}
+    callees = set()
+    for name in list(ALGS) + NEAR_MISS:
+        it = Interp(prog, 'libjwt/jwt.c', model=model)
+        r = it.run('jwt_str_alg', [Str(name)])
+        outs = set(rv.v if isinstance(rv, Int) else repr(rv) for s, rv in r)
+        to_alg[name] = outs
+        for f in it.funcs_entered:
+            callees.add(f[1])
+        for s, rv in r:
+            for e in s.trace:
+                if e[0] in ('strcmp', 'call'):
+                    callees.add(e[1])
+    it = Interp(prog, 'libjwt/jwt.c', model=model)
+    r = it.run('jwt_str_alg', [NULL])
+    to_alg[None] = set(rv.v if isinstance(rv, Int) else repr(rv) for s, rv in r)
+    return to_str, to_alg, callees
+
+
+JSON_TYPE_NAMES = ['JSON_OBJECT', 'JSON_ARRAY', 'JSON_STRING', 'JSON_INTEGER', 'JSON_REAL', 'JSON_TRUE', 'JSON_FALSE', 'JSON_NULL']
+
+
+def parse_head_table(prog, env):
+    """jwt_parse_head over: header decode {fails, ok} x alg member {absent, each JSON type} x string value"""
+    from props.common import ALGS
+    unit = 'libjwt/jwt-verify.c'
+    prog.func(unit, 'jwt_parse_head')
+    u = prog.unit(unit)
+    model = build_model()
+    JT = {n: u.enums.get(n) for n in JSON_TYPE_NAMES}
+    if any(v is None for v in JT.values()):
+        raise AnalysisBroken('jansson json_type enumerators not found')
+    cells = []
+
+    def run_cell(decode_ok, member, jtype, sval):
+        hdr = ('obj', 'hdr')
+        jalg = ('obj', 'jalg')
+
+        def h_dec(it, st, args, node):
+            return [(st, Ref(hdr) if decode_ok else NULL)]
+
+        def h_get(it, st, args, node):
+            key = args[1].text() if isinstance(args[1], Str) else None
+            st.trace.append(('api', 'json_object_get', None, list(args), (node.get('_f'), node.get('_l'))))
+            if key == 'alg' and member:
+                return [(st, Ref(jalg))]
+            return [(st, NULL)]
+
+        def h_sval(it, st, args, node):
+            if jtype == 'JSON_STRING' and isinstance(args[0], Ref) and args[0].loc == jalg:
+                return [(st, Str(sval))]
+            return [(st, NULL)]
+        it = Interp(prog, unit, model=model, hooks={'jwt_base64uri_decode_to_json': h_dec, 'json_object_get': h_get,
+                                                   'json_string_value': h_sval})
+        st = State()
+        jwt = ('obj', 'jwt')
+        st.zero.add(jwt)
+        st.mem[(jwt, 'alg')] = Term(('oldalg',))
+        if member:
+            st.mem[(jalg, 'type')] = Int(JT[jtype])
+        head = Term(('head',), ptr=True)
+        res = it.run('jwt_parse_head', [Ref(jwt), head], st)
+        for s, rv in res:
+            a = s.mem.get((jwt, 'alg'))
+            cells.append(dict(decode_ok=decode_ok, member=member, jtype=jtype, sval=sval,
+                              ret=rv.v if isinstance(rv, Int) else repr(rv), flag=flag_of(s, jwt),
+                              msg=msg_state(it, s, jwt, 'error_msg'),
+                              alg=a.v if isinstance(a, Int) else repr(a)))
+    run_cell(False, False, None, None)
+    run_cell(True, False, None, None)
+    for t in JSON_TYPE_NAMES:
+        if t != 'JSON_STRING':
+            run_cell(True, True, t, None)
+    for name in list(ALGS) + NEAR_MISS:
+        run_cell(True, True, 'JSON_STRING', name)
+    return cells
